@@ -28,6 +28,7 @@ type SQLDB struct {
 	rows        []sqlRow
 	Statements  []string
 	Unsupported []string
+	failFetch   bool
 }
 
 type sqlRow struct {
@@ -365,18 +366,32 @@ func (d *SQLDB) query(q string, args []driver.Value) (driver.Rows, error) {
 			hits = hits[:n]
 		}
 	}
-	return &sqlRows{col: col, rows: hits}, nil
+	fail := d.failFetch
+	d.failFetch = false
+	return &sqlRows{col: col, rows: hits, fail: fail}, nil
+}
+
+// FailNextFetch makes the first row fetch of the next query fail (the query itself is accepted).
+func (d *SQLDB) FailNextFetch() {
+	d.mu.Lock()
+	d.failFetch = true
+	d.mu.Unlock()
 }
 
 type sqlRows struct {
 	col  string
 	rows []sqlRow
 	i    int
+	fail bool // the first fetch fails
 }
 
 func (r *sqlRows) Columns() []string { return []string{r.col} }
 func (r *sqlRows) Close() error      { return nil }
 func (r *sqlRows) Next(dest []driver.Value) error {
+	if r.fail {
+		r.fail = false
+		return fmt.Errorf("driver: bad connection (injected: the row fetch failed)")
+	}
 	if r.i >= len(r.rows) {
 		return io.EOF
 	}
